@@ -45,6 +45,9 @@ ApplyCmd(d, e, now, g) ==
          IF o.rel = "eq" THEN o.S ELSE d
 
 RelTimeOps == {"SET", "EXPIRE", "PEXPIRE", "GETEX", "SETEX", "PSETEX"}
+\* an absolute deadline is the same on every node that applies the entry now, but a node that joins later replays
+\* the entry when that instant may have passed
+AbsTimeOps == {"EXPIREAT", "PEXPIREAT"}
 Stable(e) == e.del \/ ~(e.cmd.a[1].s \in RelTimeOps \cup {"SPOP"})
 
 Rp == INSTANCE Repl
@@ -74,7 +77,7 @@ HasDeadline(x) == \E n \in R.members : x \in DOMAIN R.data[n] /\ R.data[n][x].d 
 \* may the outcome of this command differ from node to node?
 Sensitive(e) ==
     \/ HasDev("ReplRandomPop") /\ e.cmd[1].s = "SPOP"
-    \/ HasDev("ReplApplyClock") /\ (e.cmd[1].s \in RelTimeOps \/ \E x \in Named(e) : HasDeadline(x))
+    \/ HasDev("ReplApplyClock") /\ (e.cmd[1].s \in RelTimeOps \cup AbsTimeOps \/ \E x \in Named(e) : HasDeadline(x))
     \/ Named(e) \cap hot # {}
 
 \* ... and is it different right now (divergence needs different clocks; a later joiner replays at another time anyway)
@@ -137,7 +140,10 @@ TraceReset ==
                    EXCEPT !.members = Members(e),
                           !.data = [n \in Node |-> IF n \in Members(e) THEN Obs(e)[n] ELSE EmptyStore],
                           !.clock = [n \in Node |-> IF n \in Members(e) THEN e.now[n] ELSE 0]]
-       /\ hot' = DiffKeys(Obs(e))
+       \* keys the (unjudged) preset gave a deadline are time-sensitive for a node that replays the log later
+       /\ hot' = DiffKeys(Obs(e)) \cup
+                 (IF HasDev("ReplApplyClock")
+                  THEN UNION {{x \in DOMAIN Obs(e)[n] : Obs(e)[n][x].d # NoD} : n \in Members(e)} ELSE {})
     /\ l' = l + 1 /\ UNCHANGED <<dev, nskip>>
 
 \* what node n's state machine (or, for a local command, its handler) makes of the command
